@@ -824,9 +824,9 @@ func TestC05Large(t *testing.T) {
 					st := ts.Get("stops.txt")
 					switch kind {
 					case "inflated-100000":
-						ts = sgen.Inflate(ts, 100000)
+						ts = sgen.Inflate(ts, 100003)
 					case "long-group-70000":
-						ts = sgen.LongGroup(ts, 70000)
+						ts = sgen.LongGroup(ts, 70003)
 					case "parent-cycle-70001", "parent-chain-70001":
 						if ic, pc := st.Col("stop_id"), st.Col("parent_station"); ic >= 0 && pc >= 0 && len(st.Rows) > 0 {
 							tmpl := st.Rows[0]
